@@ -70,6 +70,7 @@ func runPath(be kvh.Backend, rd *kvh.RedisBackend, path []kvh.Op, keys []string,
 		}
 		st := be.Fresh()
 		m := kvh.NewModel()
+		m.WriterInKey = rd == nil || os.Getenv("VERIF_TIER_THOROUGH") != "" // in-memory: always; Redis: thorough tier (each transition is a round trip)
 		d := kvh.NewDriver(be.Name(), st, base)
 		d.ExpDur = []time.Duration{0, short, long}
 		clocks := 0
@@ -148,7 +149,12 @@ func runPath(be kvh.Backend, rd *kvh.RedisBackend, path []kvh.Op, keys []string,
 		var pk []string
 		for _, k := range keys {
 			if pristine[k] {
-				pk = append(pk, k)
+				if m.WriterInKey {
+					// the expired record is still physically there in a lazy implementation: how it was written matters
+					pk = append(pk, k+"<"+m.Writer[k])
+				} else {
+					pk = append(pk, k)
+				}
 			}
 		}
 		res.Key = fmt.Sprintf("%s#c%d#untouched-expired%v", m.CanonKeyAt(d, keys, now()), clocks, pk)
@@ -245,6 +251,9 @@ func main() {
 			go func(i int, n string) {
 				cmd := exec.Command(exe, "-tier", run.Tier)
 				cmd.Env = append(os.Environ(), "C06_BACKEND="+n, "GOMAXPROCS=4")
+				if run.Thorough() {
+					cmd.Env = append(cmd.Env, "VERIF_TIER_THOROUGH=1")
+				}
 				cmd.Stderr = os.Stderr
 				b, err := cmd.Output()
 				errs[i] = err
@@ -313,6 +322,14 @@ func main() {
 		if o.Kind != "clock" {
 			noClock = append(noClock, o)
 		}
+	}
+	if os.Getenv("C06_DEBUG") != "" {
+		path := []kvh.Op{{Kind: "create", Key: "a", Val: 2, Exp: 0}, {Kind: "cas", Key: "a", Val: 3, Exp: 1, Ver: kvh.VCurrent}, {Kind: "clock", Exp: 0}, {Kind: "list", Pat: "*"}}
+		for i := 1; i <= len(path); i++ {
+			r := runPath(backend, rd, path[:i], keys, maxClock)
+			fmt.Fprintf(os.Stderr, "DEBUG %v -> key=%q sig=%q det=%q\n", path[:i], r.Key, r.Sig, r.Det)
+		}
+		os.Exit(0)
 	}
 	sp := bfs.Spec[kvh.Op]{
 		Serial:   true,
